@@ -7,7 +7,10 @@ A *scenario* is a list of script steps
     ["release", dir]            fire the Deferred on which the sender of `dir` is stalled (if any)
     ["deliver", dir, chunks]    move bytes of `dir` up to the end of the next completely serialized tracked
                                 call (or all bytes if there is none), cut into pieces by `chunks`
-    ["gift", dir, cid, ok]      resolve (ok) / fail the pending third-party reference of call cid (if pending)
+    ["gift", dir, j, ok]        resolve (ok) / fail the j-th (mod n) pending third-party reference (a call carries 1 or 2)
+    ["advance", secs]           virtual time passes
+    ["lose", dir]               the RECEIVER of direction dir gets connectionLost (Broker.finish); nothing is delivered to it
+                                afterwards and what it writes from then on goes nowhere
     ["finish", dir, j, ok]      a method entered earlier (kind "slow": it returned a Deferred) completes / errbacks late
     ["turn"]                    one turn of foolscap's eventual-send queue
     ["noise", what]             unrelated eventual-send: "nop" | "raise" | ["issue", dir, spec] (a queued callable that issues a call)
@@ -53,8 +56,11 @@ class QTransport:
         self.written = 0      # total bytes ever written
         self.moved = 0        # total bytes ever delivered
         self.lost = False
+        self.dead = False     # the writing broker has had its connectionLost: what it writes from now on goes nowhere
 
     def write(self, data):
+        if self.dead:
+            return
         self.buf += data
         self.log += data
         self.written += len(data)
@@ -142,11 +148,41 @@ class Side:
         self.serialized = {}    # cid -> byte offset at which its serialization ended
         self.order = []         # cids in the order their serialization ended
         self.delivered = 0      # how many of self.order have been moved to the receiver
+        self.ngifts = {}        # cid -> number of third-party references it carries
+
+
+# simple class-level attributes of Broker / Banana on the reference tree: anything else of that kind is a configuration
+# knob that did not exist there, and the check exercises it with non-default values (family "knobs")
+BASE_KNOBS = {"disconnected", "factory", "remote_broker", "requireSchema", "startedTLS", "startingTLS", "tub", "unsafeTracebacks",
+              "use_remote_broker", "debugReceive", "debugSend", "disconnectTimeout", "disconnectTimer", "keepaliveTimeout",
+              "keepaliveTimer", "logReceiveErrors", "logViolations", "paused", "streamable", "useKeepalives"}
+
+
+def new_knobs():
+    """-> {attribute: default} for class-level configuration attributes of Broker/Banana that the reference tree lacks"""
+    from foolscap import banana
+    out = {}
+    for cls in (banana.Banana, broker.Broker):
+        for k, v in vars(cls).items():
+            if not k.startswith("_") and k not in BASE_KNOBS and (v is None or isinstance(v, (bool, int, float))):
+                out[k] = v
+    return out
+
+
+def virtualize_reactors():
+    """any foolscap module that holds a reference to the real reactor gets the virtual clock instead"""
+    import sys
+    from twisted.internet import reactor as real
+    for name, m in list(sys.modules.items()):
+        if name.startswith("foolscap") and m is not None and \
+                (getattr(m, "reactor", None) is real or isinstance(getattr(m, "reactor", None), type(E.clock))):
+            m.reactor = E.clock
 
 
 class World:
-    def __init__(self, loopback=False):
+    def __init__(self, loopback=False, knobs=None):
         E.reset_clock()
+        virtualize_reactors()
         self.loopback = loopback
         self.A = broker.Broker(TubRef("brokerA"))
         self.B = broker.Broker(TubRef("brokerB"))
@@ -165,6 +201,8 @@ class World:
         self.B.transport = self.tr[1]
         for b in self.brokers:
             b.tub = FakeTub()
+            for k, v in (knobs or {}).items():
+                setattr(b, k, v)
             b.connectionMade()
         self.sides = [Side(), Side()]
         self.targets = [Target(self, 0), Target(self, 1)]       # targets[d] lives on the receiver of direction d
@@ -178,9 +216,20 @@ class World:
         self.errors = []
         self.reenter = {}
         self.slow = [{}, {}]        # direction -> cid -> Deferred returned by the entered method
+        self.deliv = [{}, {}]       # direction -> cid -> (InboundDelivery, ready_deferred) as handed to scheduleCall
+        self.recv_lost = [False, False]     # the receiver of direction d has lost the connection
+        self.send_lost = [False, False]     # the sender of direction d has lost the connection
         self.keep = []
         for d in (0, 1):
             self._instrument(d)
+        q = E.ev._theSimpleQueue
+        real_turn = type(q)._turn
+
+        def logged_turn():
+            for d in (0, 1):
+                self.cur_ops[d].append(("T",))
+            return real_turn(q)
+        q._turn = logged_turn          # instance attribute: every batch that runs, by whatever route, is one model Turn
 
     # -- plumbing ------------------------------------------------------
     def _export(self, holder, user, target):
@@ -201,7 +250,7 @@ class World:
                 side.sent.append(cid)
                 if obj.reqID:
                     side.reqid2cid[obj.reqID] = cid
-                self.cur_ops[d].append(("I", fate, stalls))
+                self.cur_ops[d].append(("I", fate, stalls, side.ngifts.get(cid, 0)))
             dd = real_send(obj)
             if cid is not None and not self.loopback:
                 def done(res, cid=cid):
@@ -218,6 +267,7 @@ class World:
             cid = self._cid_of(delivery)
             if cid is not None:
                 self.events[d].append(("queued", cid))
+                self.deliv[d][cid] = (delivery, ready_deferred)
             return real_schedule(delivery, ready_deferred)
         R.scheduleCall = scheduleCall
 
@@ -258,11 +308,14 @@ class World:
             kw["a"] = StallArg(side, stalls)
         useschema = False
         if kind == "gift":
-            url = gift_url(d, cid)
-            tracker = referenceable.RemoteReferenceTracker(self.third, 1000 + cid * 2 + d, url, None)
-            rr = referenceable.RemoteReference(tracker)
-            self.keep.append(rr)
-            kw["g"] = rr
+            ng = 2 if (spec.get("gifts", 1) >= 2 and not stalls) else 1
+            side.ngifts[cid] = ng
+            for j, slot in enumerate(("g", "a")[:ng]):
+                url = gift_url(d, cid, j)
+                tracker = referenceable.RemoteReferenceTracker(self.third, 1000 + cid * 4 + d * 2 + j, url, None)
+                rr = referenceable.RemoteReference(tracker)
+                self.keep.append(rr)
+                kw[slot] = rr
         elif kind == "slow":
             kw["g"] = "slow"
         elif kind == "early":
@@ -322,6 +375,8 @@ class World:
         if self.loopback:
             return          # the eventual queue moves the bytes
         side, tr, R = self.sides[d], self.tr[d], self.brokers[1 - d]
+        if self.recv_lost[d]:
+            return          # a transport delivers nothing after connectionLost
         if side.delivered < len(side.order):
             cid = side.order[side.delivered]
             upto = side.serialized[cid]
@@ -345,13 +400,13 @@ class World:
             self.events[d].append(("rejected", cid))
 
     def pending_gifts(self, d):
-        """cids of direction d whose third-party reference is unresolved and whose call has been completely received"""
+        """(cid, j) of the third-party references of direction d that are unresolved and whose call has been completely received"""
         R = self.brokers[1 - d]
         out = []
         for url, dd in R.tub.pending.items():
-            cid = int(url.rsplit("-", 1)[1])
-            if not dd.called and ("queued", cid) in self.events[d]:
-                out.append(cid)
+            _, dn, cid, j = url.rsplit("/", 1)[1].split("-")
+            if int(dn) == d and not dd.called and ("queued", int(cid)) in self.events[d]:
+                out.append((int(cid), int(j)))
         return sorted(out)
 
     def gift(self, d, j, ok):
@@ -360,13 +415,26 @@ class World:
         pend = self.pending_gifts(d)
         if not pend:
             return
-        cid = pend[j % len(pend)]
-        dd = self.brokers[1 - d].tub.pending[gift_url(d, cid)]
+        cid, idx = pend[j % len(pend)]
+        dd = self.brokers[1 - d].tub.pending[gift_url(d, cid, idx)]
         self.cur_ops[d].append(("G", cid, ok))
         if ok:
-            dd.callback("resolved-gift-%d" % cid)
+            dd.callback("resolved-gift-%d-%d" % (cid, idx))
         else:
-            dd.errback(failure.Failure(RuntimeError("gift %d cannot be resolved" % cid)))
+            dd.errback(failure.Failure(RuntimeError("gift %d/%d cannot be resolved" % (cid, idx))))
+
+    def lose(self, d):
+        """the receiver of direction d is told by its transport that the connection is gone"""
+        from twisted.internet import error
+        if self.loopback or self.recv_lost[d]:
+            return
+        R = self.brokers[1 - d]
+        self.recv_lost[d] = True
+        self.send_lost[1 - d] = True
+        self.tr[1 - d].dead = True
+        self.cur_ops[d].append(("X",))
+        self.events[d].append(("lost", -1))
+        R.connectionLost(failure.Failure(error.ConnectionLost()))
 
     def finish(self, d, j, ok):
         """the j-th (mod n) method that was entered earlier and returned a Deferred now completes / fails.  Not a model
@@ -381,9 +449,14 @@ class World:
             self.slow[d][cid].errback(failure.Failure(RuntimeError("method of call %d failed late" % cid)))
 
     def turn(self):
-        for d in (0, 1):
-            self.cur_ops[d].append(("T",))
+        if not turn_pending():
+            for d in (0, 1):
+                self.cur_ops[d].append(("T",))      # a turn of an empty queue: nothing runs (the model agrees)
         one_turn()
+
+    def advance(self, secs):
+        """virtual time passes: timers that are due fire (on the reference tree no timer takes part in call delivery)"""
+        E.clock.advance(secs)
 
     # -- observation ---------------------------------------------------
     def observe(self, d):
@@ -397,10 +470,28 @@ class World:
         if len(S.slicerStack) > 1 and tracked(S.slicerStack[1][0]):
             cur = cid_of_args(S.slicerStack[1][0].args, S.slicerStack[1][0].kwargs)
         wire = side.order[side.delivered:]
-        inq = [c for c in (self._cid_of(dl) for (dl, _) in R.inboundDeliveryQueue) if c is not None]
+        inq = []
+        for item in R.inboundDeliveryQueue:
+            dl = item[0] if isinstance(item, tuple) and item and hasattr(item[0], "methodname") else None
+            c = self._cid_of(dl) if dl is not None else -1          # -1: an entry this harness cannot read
+            if c is not None:
+                inq.append(c)
         waiting = bool(R._waiting_for_call_to_be_ready)
         ent = [c for (e, c) in self.events[d] if e == "entered"]
-        return dict(sendq=sendq, cur=cur, wire=list(wire), inq=inq, waiting=waiting, entered=ent)
+        # deliveries that are not ready: the one popped by doNextCall (if any), then the queued ones, with the counters of
+        # their Deferred network (ArgumentUnslicer.num_unreferenceable_children, the call's AsyncAND, unresolved gifts)
+        done = set(c for (e, c) in self.events[d] if e in ("entered", "failed"))
+        left = {}
+        for (c, j) in self.pending_gifts(d):
+            left[c] = left.get(c, 0) + 1
+        held = [c for c in self.deliv[d] if c not in done and c not in inq] if waiting else []
+        pend = []
+        for c in held[:1] + [c for c in inq if c in self.deliv[d] and self.deliv[d][c][1] is not None and not self.deliv[d][c][1].called]:
+            dl, rd = self.deliv[d][c]
+            pend.append((c, ((dl.allargs.num_unreferenceable_children, getattr(rd, "remaining", -1)),
+                             (bool(getattr(rd, "_fired", None)), left.get(c, 0)))))
+        return dict(sendq=sendq, cur=cur, wire=list(wire), inq=inq, waiting=waiting, entered=ent,
+                    lost=bool(R.disconnected), pend=pend)
 
     def end_step(self):
         obs = []
@@ -419,7 +510,7 @@ class World:
                 if side.stall is not None and not side.stall.called:
                     self.release(d)
                     moved = True
-                if not self.loopback and self.tr[d].written > self.tr[d].moved:
+                if not self.loopback and not self.recv_lost[d] and self.tr[d].written > self.tr[d].moved:
                     self.deliver(d, None)
                     moved = True
                 if self.pending_gifts(d):
@@ -468,8 +559,8 @@ def one_turn():
 THIRD_TUBID = "t" * 32
 
 
-def gift_url(d, cid):
-    return "pb://%s@fake:1/gift-%d-%d" % (THIRD_TUBID, d, cid)
+def gift_url(d, cid, j=0):
+    return "pb://%s@fake:1/gift-%d-%d-%d" % (THIRD_TUBID, d, cid, j)
 
 
 def short(r):
@@ -478,10 +569,10 @@ def short(r):
     return r
 
 
-def run_scenario(script, final_quiesce=True, loopback=False):
+def run_scenario(script, final_quiesce=True, loopback=False, knobs=None):
     """-> dict(obs=[per step: [obs dir0, obs dir1]], ops=[per dir: per step: [op...]], events, issued, results, errors)"""
     with E.quiet():
-        w = World(loopback=loopback)
+        w = World(loopback=loopback, knobs=knobs)
         obs = []
         for st in script:
             if st[0] == "issue":
@@ -498,6 +589,10 @@ def run_scenario(script, final_quiesce=True, loopback=False):
                 w.finish(st[1], st[2], st[3])
             elif st[0] == "noise":
                 w.noise(st[1])
+            elif st[0] == "lose":
+                w.lose(st[1])
+            elif st[0] == "advance":
+                w.advance(st[1])
             else:
                 raise ValueError(st)
             obs.append(w.end_step())
@@ -506,8 +601,9 @@ def run_scenario(script, final_quiesce=True, loopback=False):
             w.quiesce()
             obs.append(w.end_step())
         lost = [(not b.transport.connected) if loopback else b.transport.lost for b in w.brokers]
+        E.ev._theSimpleQueue.__dict__.pop("_turn", None)
     return dict(obs=obs, ops=w.ops, events=w.events, issued=w.issued, results=w.results, errors=w.errors,
-                nsteps=nsteps, lost=lost, sent=[w.sides[0].sent, w.sides[1].sent])
+                nsteps=nsteps, lost=lost, sent=[w.sides[0].sent, w.sides[1].sent], send_lost=w.send_lost, recv_lost=w.recv_lost)
 
 
 class LocalTarget(Referenceable):
@@ -654,6 +750,26 @@ def run_tubs(plan, rng, chunk_sizes, c_reachable=True):
         del got, rb, rc, A, B, C, net, tb, tc
         settle_gc()
         return out
+
+
+def run_async_and(n, results):
+    """the real util.AsyncAND over n Deferreds that fire in order with `results` (True: callback, False: errback)
+    -> [remaining, _fired, outcome] with outcome 1 (callback) / 0 (errback) / 2 (not fired), after every firing"""
+    from foolscap.util import AsyncAND
+    with E.quiet():
+        ds = [defer.Deferred() for _ in range(n)]
+        a = AsyncAND(ds)
+        out = []
+        a.addCallbacks(lambda r: out.append(1), lambda f: out.append(0))
+        trace = []
+        for d, ok in zip(ds, results):
+            if ok:
+                d.callback(None)
+            else:
+                d.errback(failure.Failure(RuntimeError("component fails")))
+                d.addErrback(lambda f: None)
+            trace.append([a.remaining, bool(a._fired), out[0] if out else 2, len(out)])
+        return trace
 
 
 # ---------------------------------------------------------------------------------------------------------------
